@@ -381,8 +381,22 @@ pub fn parse_choice_text(input: &str) -> Result<ParsedChoiceText, CompilerError>
             });
         }
 
+        // `[x] text -> target`: the text keeps its trailing space so that the target's
+        // content joins it on the same line.
+        let had_space_before_inline_divert = split_inline_divert(after_label)
+            .and_then(|(text, _)| text.chars().last())
+            .is_some_and(char::is_whitespace);
         let (selected_text, inline_target) = split_inline_choice_divert(after_label)?;
         let (selected_text, selected_tags) = split_text_and_tags(selected_text)?;
+        let selected_text = if inline_target.is_some()
+            && had_space_before_inline_divert
+            && selected_tags.is_empty()
+            && !selected_text.is_empty()
+        {
+            format!("{selected_text} ")
+        } else {
+            selected_text
+        };
         return Ok(ParsedChoiceText {
             display_text: choice_only_text.clone(),
             selected_text: Some(selected_text),
